@@ -101,6 +101,7 @@ type Solver struct {
 	fallback []string
 	log      io.Writer
 	ctxText  strings.Builder // everything asserted/declared outside push scopes since the last reset
+	hard     int             // recent incremental attempts that timed out (adaptive: go one-shot directly)
 }
 
 func solverArgv(name string, timeoutMs int) []string {
@@ -119,7 +120,7 @@ var primarySolver = "z3"
 var fallbackSolvers = []string{"z3-new", "z3"}
 
 func NewSolver(name string, ctx *TermCtx, timeoutMs int) (*Solver, error) {
-	s := &Solver{name: name, ctx: ctx, fullMs: timeoutMs, quickMs: 400, fallback: fallbackSolvers}
+	s := &Solver{name: name, ctx: ctx, fullMs: timeoutMs, quickMs: 250, fallback: fallbackSolvers}
 	if s.quickMs > timeoutMs {
 		s.quickMs = timeoutMs
 	}
@@ -157,6 +158,7 @@ func (s *Solver) Reset() {
 	s.main.log = s.log
 	s.main.send("(reset)\n(set-option :produce-models true)\n")
 	s.resetPrinter()
+	s.hard = 0
 }
 
 func (s *Solver) Assert(t *Term) {
@@ -231,9 +233,20 @@ func (s *Solver) CheckWithModel(extra *Term, onSat func(get func([]*Term) []uint
 	if extra != nil {
 		pr.send("(assert " + r + ")\n")
 	}
-	pr.send("(check-sat)\n(echo \"<<done>>\")\n")
-	lines, errtxt := pr.readUntilDone()
-	res := parseSat(lines, errtxt)
+	var lines []string
+	var errtxt string
+	res := Unknown
+	skipInc := s.hard >= 3 && extra != nil && extra.size > 400
+	if !skipInc {
+		pr.send("(check-sat)\n(echo \"<<done>>\")\n")
+		lines, errtxt = pr.readUntilDone()
+		res = parseSat(lines, errtxt)
+		if res == Unknown {
+			s.hard++
+		} else if s.hard > 0 {
+			s.hard--
+		}
+	}
 	var one *proc
 	if res == Unknown && !strings.Contains(errtxt, "solver died") {
 		// one-shot, non-incremental fallback on the full context
